@@ -6,8 +6,8 @@ import UF.Spec.HostLine
 import UF.Model.RequestNew
 import UF.Spec.Request
 /- Ops of work group H (see notes/AGENT_GUIDE.md). Return `none` for ops of other groups. -/
-namespace UF.Ops
-open UF
+namespace UF.Ops.H
+open UF UF.H
 
 /-! Encoders mirroring harness/wire.go (`waddr`, `wvalue`, `wrewrite`, `whostrule`, `wrequest`). -/
 
@@ -141,7 +141,7 @@ def opC18Dns (args : List W) : String :=
         let fmt (f : Bytes → Bool × Bool) : String :=
           outList (qs.map fun q => let (a, b) := f q; outBool a ++ outBool b)
         let m := match newRuleKind ext dn line 1 with
-          | .host r => tok (fmt fun q => (r.matches q && r.ip.is4, r.matches q && !r.ip.is4))
+          | .host r => tok (fmt fun q => (hostRuleMatches r q && r.ip.is4, hostRuleMatches r q && !r.ip.is4))
           | _ => "nohost"
         let s := if line.isEmpty || hostLineCarveOut line then "-" else
           match specHostLine ext dn line with
@@ -202,6 +202,11 @@ def opC17Etld (args : List W) : String :=
       encExcept outBytes (effectiveTLDPlusOne ext h) ++ " " ++ s
     | _, _ => "bad-decode"
   | _ => "bad-arity"
+
+end UF.Ops.H
+
+namespace UF.Ops
+open UF.Ops.H
 
 def dispatchH (op : String) (args : List W) : Option String :=
   match op with
